@@ -69,11 +69,19 @@ Rebuild ==
   /\ prog' = Append(prog, [op |-> "rebuild", kind |-> "", arg |-> <<>>])
   /\ UNCHANGED <<stack, flat, ncont, done>>
 
+\* the application starts and answers a request in the middle of the program (app.Handler() / app.Test()): what was registered
+\* before keeps its meaning, what is registered afterwards -- routes, groups, mounted applications -- means what it always means
+Serve ==
+  /\ ~done /\ stack = <<>>
+  /\ \A i \in 1..Len(prog) : prog[i].op # "serve"
+  /\ prog' = Append(prog, [op |-> "serve", kind |-> "", arg |-> <<>>])
+  /\ UNCHANGED <<stack, flat, ncont, done>>
+
 Finish == ~done /\ stack = <<>> /\ flat # <<>> /\ ncont > 0 /\ done' = TRUE /\ UNCHANGED <<prog, stack, flat, ncont>>
 
 Next == \/ \E k \in Kinds, p \in RoutePaths : AddRoute(k, p)
         \/ \E ck \in ContKinds, pre \in Prefixes : Open(ck, pre)
-        \/ Close \/ Rebuild \/ Finish
+        \/ Close \/ Rebuild \/ Serve \/ Finish
 Spec == Init /\ [][Next]_vars
 
 \* design-level sanity: the flattening has one entry per route of the program, in program order
